@@ -49,6 +49,8 @@ var sessCounter int
 var sessWorld = map[string]int{"d1": 1, "d2": 1, "d3": 1}
 var metaDigest = map[string]string{}
 var sessOpts, sessOptsNoBase *spec.ExpandOptions
+var sessDirs []string // two working directories holding the same documents
+var sessDir int
 
 const sessBase = "file:///w/r/root.json"
 
@@ -72,6 +74,10 @@ func worldLoader(log *[]string) func(string) (json.RawMessage, error) {
 	return func(u string) (json.RawMessage, error) {
 		*log = append(*log, u)
 		base := u[strings.LastIndex(u, "/")+1:]
+		// the world has documents next to the RelativeBase location and in the CURRENT working directory only
+		if dir := strings.TrimSuffix(u, "/"+base); dir != "file:///w/r" && dir != "file://"+sessDirs[sessDir] {
+			return nil, errors.New("world: no document " + u + " (the working directory is " + sessDirs[sessDir] + ")")
+		}
 		switch base {
 		case "d1.json", "d2.json", "d3.json":
 			d := strings.TrimSuffix(base, ".json")
@@ -91,11 +97,14 @@ func init() {
 				return err
 			}
 			base, _ = filepath.EvalSymlinks(base)
-			if err := os.MkdirAll(filepath.Join(base, "w", "r"), 0o755); err != nil {
-				return err
+			for _, d := range []string{filepath.Join(base, "w", "r"), filepath.Join(base, "w", "other", "deep")} {
+				if err := os.MkdirAll(d, 0o755); err != nil {
+					return err
+				}
+				sessDirs = append(sessDirs, d)
 			}
 			cwdPrefix = base
-			if err := os.Chdir(filepath.Join(base, "w", "r")); err != nil {
+			if err := os.Chdir(sessDirs[0]); err != nil {
 				return err
 			}
 			// the pristine content of the built-in meta-schemas, before any expansion ran
@@ -148,8 +157,17 @@ func runHistory(id int, steps []sessStep) *sessObs {
 	o := &sessObs{ID: id, OK: true, Steps: []sessStepObs{}}
 	// every history starts from the initial world
 	sessWorld = map[string]int{"d1": 1, "d2": 1, "d3": 1}
+	sessDir = 0
+	_ = os.Chdir(sessDirs[0])
 	for _, st := range steps {
 		so := sessStepObs{Want: st, OK: true, Opts: true, Loads: []string{}}
+		if st.K == "world" && st.X == "cwd" {
+			sessDir = 1 - sessDir
+			_ = os.Chdir(sessDirs[sessDir])
+			so.Got = st
+			o.Steps = append(o.Steps, so)
+			continue
+		}
 		if st.K == "world" {
 			sessWorld[st.X] = 3 - sessWorld[st.X]
 			so.Got = st
